@@ -95,6 +95,31 @@ def complement_table_rules(ctx, R="R1"):
                compl.get(c) == sym, "complementing twice must restore the symbol", nuc.lineno)
 
 
+_TO_CODON_REFERENCE = """
+def _to_codon(numbers):
+    if isinstance(numbers, Integral):
+        return CodonTable._to_codon(np.array([numbers]))[0]
+    if not isinstance(numbers, np.ndarray):
+        numbers = np.array(list(numbers), dtype=int)
+    codons = np.zeros(numbers.shape + (3,), dtype=int)
+    d2 = numbers // _radix ** 2
+    codons[..., -3] = d2
+    numbers = numbers - d2 * _radix ** 2
+    d1 = numbers // _radix ** 1
+    codons[..., -2] = d1
+    numbers = numbers - d1 * _radix ** 1
+    d0 = numbers // _radix ** 0
+    codons[..., -1] = d0
+    return codons
+"""
+_TO_NUMBER_REFERENCE = """
+def _to_number(codons):
+    if not isinstance(codons, np.ndarray):
+        codons = np.array(list(codons), dtype=int)
+    return np.sum(_radix_multiplier * codons, axis=-1)
+"""
+
+
 def run(ctx):
     t = ctx.src(TYPES)
     nuc = t.cls("NucleotideSequence")
@@ -130,15 +155,16 @@ def run(ctx):
         if isinstance(n, ast.ListComp):
             exps = const_eval(n.generators[0].iter)
     tc = c.func("CodonTable._to_codon")
-    loop = [st for st in stmts(tc) if isinstance(st, ast.For)]
-    ctx.need(bool(loop), "digit loop of CodonTable._to_codon (another way of splitting the number into digits cannot be decided here)")
-    lexps = const_eval(loop[0].iter) if loop else None
-    idx_expr = [ast.unparse(x.targets[0]) for st in loop for x in st.body if isinstance(x, ast.Assign)
-                and isinstance(x.targets[0], ast.Subscript) and "codons" in ast.unparse(x.targets[0])]
-    ctx.ob("R1.codon-radix", CODON, "CodonTable._to_codon", f"weights {exps}, digits {lexps}, index {idx_expr}",
-           tuple(exps or ()) == (2, 1, 0) and tuple(lexps or ()) == (2, 1, 0) and idx_expr == ["codons[..., -(n + 1)]"]
-           and ast.unparse(c.module_assign("_radix")) == "len(_NUC_ALPH)",
-           "the first base of a codon is the most significant digit in both directions", tc.lineno)
+    # the digits of a codon number, most significant first: the function is compared - as a whole, through the summariser, with
+    # its literal loop written out - with the computation it has to be (equiv.same_function): a second loop whose result is
+    # returned instead, another digit order or a dropped remainder differ
+    from ..equiv import same_function
+    ok_tc, shown_tc = same_function(tc, _TO_CODON_REFERENCE)
+    ctx.need(ok_tc or any(isinstance(st, ast.For) for st in stmts(tc)),
+             "digit loop of CodonTable._to_codon (another way of splitting the number into digits cannot be decided here)")
+    ctx.ob("R1.codon-radix", CODON, "CodonTable._to_codon", f"weights {exps}; digits number // _radix**n for n = 2, 1, 0 into codons[..., -(n + 1)]",
+           tuple(exps or ()) == (2, 1, 0) and ok_tc and ast.unparse(c.module_assign("_radix")) == "len(_NUC_ALPH)",
+           "the first base of a codon is the most significant digit in both directions; the code computes " + shown_tc, tc.lineno)
     # the caller's array of codon numbers is read, never changed: the remainder is a new array (`numbers = numbers - ..`),
     # not an in-place update (`numbers -= ..`, `numbers[..] = ..`)
     pnum = param_names(tc)[0]
@@ -149,9 +175,9 @@ def run(ctx):
     ctx.ob("R1.codon-input-untouched", CODON, "CodonTable._to_codon", f"{pnum} is only rebound", not inplace,
            "decoding codon numbers must not overwrite the caller's array of numbers", tc.lineno)
     tn = c.func("CodonTable._to_number")
+    ok_tn, shown_tn = same_function(tn, _TO_NUMBER_REFERENCE)
     ctx.ob("R1.codon-radix", CODON, "CodonTable._to_number", "np.sum(_radix_multiplier * codons, axis=-1)",
-           "np.sum(_radix_multiplier * codons, axis=-1)" in ast.unparse(tn), "codon number = weighted digit sum over the last axis",
-           tn.lineno, nontrivial=False)
+           ok_tn, "codon number = weighted digit sum over the last axis; the code computes " + shown_tn, tn.lineno)
 
     # ---------------- R2 range guard polarity -------------------------------
     n_g = 0
@@ -164,8 +190,9 @@ def run(ctx):
                 for cmp_ in ast.walk(st.test):
                     if isinstance(cmp_, ast.Compare) and len(cmp_.ops) == 1 and isinstance(cmp_.ops[0], (ast.Gt, ast.GtE)) \
                             and is_length_expr(cmp_.comparators[0]):
-                        if "shape" in ast.unparse(cmp_.left) or "len(" in ast.unparse(cmp_.left) or ast.unparse(cmp_.left) in ("k", "self._k"):
-                            continue  # a length compared with a length (k is the k-mer length, not a code)
+                        left_ = cmp_.left.args[1] if isinstance(cmp_.left, ast.Call) and call_name(cmp_.left) == "__cast__" else cmp_.left
+                        if "shape" in ast.unparse(left_) or "len(" in ast.unparse(left_) or ast.unparse(left_) in ("k", "self._k", "max_offset"):
+                            continue  # a length compared with a length (k / the spaced window are k-mer lengths, not codes)
                         n_g += 1
                         ctx.ob("R2.range-guard-polarity", rel, qual, cmp_, isinstance(cmp_.ops[0], ast.GtE),
                                f"`{ast.unparse(cmp_)}` accepts a code equal to the alphabet length (valid codes "
@@ -420,11 +447,26 @@ def run(ctx):
     ctx.ob("R6.alphabet-error", ALPH, "Alphabet.encode", "KeyError -> AlphabetError",
            all(translated(n) for n in lookups),
            "a missing dictionary key must be translated into AlphabetError: the lookup has to sit inside the try", ae.lineno)
-    ad = a.func("Alphabet.decode")
-    ctx.ob("R6.negative-code", ALPH, "Alphabet.decode", "code < 0 or code >= len",
-           any(isinstance(c_, ast.Compare) and isinstance(c_.ops[0], ast.Lt) and isinstance(c_.comparators[0], ast.Constant)
-               and c_.comparators[0].value == 0 for c_ in ast.walk(ad)),
-           "a negative code would index from the end of the symbol tuple", ad.lineno)
+    # decode refuses exactly the codes outside 0 .. len-1: the refusing guards of the summarised function contain `code < 0` and
+    # `code >= len(self._symbols)` (in any spelling the canonical form identifies: `not 0 <= code < len(..)`, two ifs, ...)
+    from ..exprnorm import summarize as _summ, canon as _canon, spec as _spec
+    from ..facts import disjuncts as _disj
+    for q_ in ("Alphabet.decode", "LetterAlphabet.decode"):
+        ad = a.func(q_)
+        pc_ = param_names(ad)[1]
+        sm_ = _summ(ad)
+        ds_ = set()
+        if not sm_.unsupported:
+            for g_ in sm_.guards:
+                for d_ in _disj(g_):
+                    try:
+                        ds_.add(repr(_canon(d_)))
+                    except Exception:
+                        pass
+        ctx.ob("R6.negative-code", ALPH, q_, f"refused iff {pc_} < 0 or {pc_} >= len(self._symbols)",
+               repr(_spec(f"{pc_} < 0")) in ds_ and repr(_spec(f"{pc_} >= len(self._symbols)")) in ds_,
+               "a negative code would index from the end of the symbol tuple (and a code equal to the length is no symbol): both bounds "
+               "must be refused at exactly 0 and len", ad.lineno)
     tr = t.func("NucleotideSequence.translate")
     coupled = set()
     for st in ast.walk(tr):
